@@ -132,6 +132,10 @@ def _header(stmt):
 
 def _head_text(stmt):
     t = ast.unparse(stmt)
+    if isinstance(stmt, (ast.FunctionDef, ast.AsyncFunctionDef, ast.ClassDef)):
+        ls = t.split("\n")
+        k = next((i for i, l in enumerate(ls) if l.startswith(("def ", "async def ", "class "))), 0)
+        return " ".join(ls[:k + 1]) + "  ..."
     if any(getattr(stmt, b, None) for b in _BLOCKS) or getattr(stmt, "handlers", None) or getattr(stmt, "cases", None):
         return t.split("\n")[0] + "  ..."
     return t
